@@ -17,19 +17,19 @@ KEEP="${VERIF_COV_OUT:-$PWD/.build/coverage}"
 mkdir -p "$W/build" "$W/cov" "$W/ev" "$W/rep" "$KEEP"
 trap 'rm -rf "$W"' EXIT
 PKG=github.com/zalf-rpm/Hermes2Go/hermes
-( cd harness && go build -cover -coverpkg=./...,$PKG -tags verif -o "$W/build/vmon" . ) || exit 2
-( cd harness && go build -cover -coverpkg=./...,$PKG -race -tags verif -o "$W/build/vmon_race" . ) || exit 2
-( cd /repo/src/hermes2go && env -u GOFLAGS GOWORK= go build -cover -coverpkg=./...,$PKG -tags verif -race -o "$W/build/hermes2go_race" . ) || exit 2
-( cd /repo/src/hermes2go && env -u GOFLAGS GOWORK= go build -cover -coverpkg=./...,$PKG -tags verif -o "$W/build/hermes2go" . ) || exit 2
-( cd /repo/src/calcHermesBatch && env -u GOFLAGS GOWORK= go build -cover -o "$W/build/calcHermesBatch" . ) || exit 2
-( cd /repo/src/cropfileconverter && env -u GOFLAGS GOWORK= go build -cover -coverpkg=./...,$PKG -o "$W/build/cropfileconverter" . ) || exit 2
+( cd harness && go build -cover -covermode=atomic -coverpkg=./...,$PKG -tags verif -o "$W/build/vmon" . ) || exit 2
+( cd harness && go build -cover -covermode=atomic -coverpkg=./...,$PKG -race -tags verif -o "$W/build/vmon_race" . ) || exit 2
+( cd /repo/src/hermes2go && env -u GOFLAGS GOWORK= go build -cover -covermode=atomic -coverpkg=./...,$PKG -tags verif -race -o "$W/build/hermes2go_race" . ) || exit 2
+( cd /repo/src/hermes2go && env -u GOFLAGS GOWORK= go build -cover -covermode=atomic -coverpkg=./...,$PKG -tags verif -o "$W/build/hermes2go" . ) || exit 2
+( cd /repo/src/calcHermesBatch && env -u GOFLAGS GOWORK= go build -cover -covermode=atomic -o "$W/build/calcHermesBatch" . ) || exit 2
+( cd /repo/src/cropfileconverter && env -u GOFLAGS GOWORK= go build -cover -covermode=atomic -coverpkg=./...,$PKG -o "$W/build/cropfileconverter" . ) || exit 2
 export VERIF_BUILD="$W/build" VERIF_EVIDENCE_DIR="$W/ev" VERIF_REPLAY_DIR="$W/rep"
 for p in $PROPS; do
   mkdir -p "$W/cov/$p"
   export VERIF_SCRATCH=$(mktemp -d "$W/scratch.XXXXXX")
   GOCOVERDIR="$W/cov/$p" "$W/build/vmon" check $p $TIER 2>&1 | tail -1
   rm -rf "$VERIF_SCRATCH"
-  go tool covdata textfmt -i="$W/cov/$p" -o "$KEEP/$p.txt" 2>/dev/null
+  go tool covdata textfmt -i="$W/cov/$p" -o "$KEEP/$p.txt" 2>"$KEEP/$p.err" || head -3 "$KEEP/$p.err"
   rm -rf "$W/cov/$p"
 done
 python3 - "$KEEP" $PROPS <<'PY'
